@@ -5,6 +5,8 @@ use crate::query::Query;
 
 impl Query for Segment {
     fn process<'a, T: Queryable>(&self, step: State<'a, T>) -> State<'a, T> {
+        #[cfg(jsonpath_rust_verif)]
+        crate::verif::point(crate::verif::SEGMENT);
         match self {
             Segment::Descendant(segment) => segment.process(step.flat_map(process_descendant)),
             Segment::Selector(selector) => selector.process(step),
@@ -25,6 +27,8 @@ fn process_selectors<'a, T: Queryable>(
 }
 
 fn process_descendant<T: Queryable>(data: Pointer<T>) -> Data<T> {
+    #[cfg(jsonpath_rust_verif)]
+    crate::verif::point(crate::verif::DESCEND);
     if let Some(array) = data.inner.as_array() {
         Data::Ref(data.clone()).reduce(
             Data::new_refs(
